@@ -18,9 +18,18 @@ type Mutex struct {
 	real  sync.Mutex
 	held  bool
 	clock vsched.HBClock
+	ep    uint64
+}
+
+// fresh resets the scheduler-side state when the object is first used in a new execution.
+func (m *Mutex) fresh() {
+	if e := vsched.Epoch(); m.ep != e {
+		m.ep, m.held = e, false
+	}
 }
 
 func (m *Mutex) Lock() {
+	m.fresh()
 	if !vsched.SyncOp(vsched.OpLock, m, "", true, func() bool { return !m.held }) {
 		m.real.Lock()
 		return
@@ -30,6 +39,7 @@ func (m *Mutex) Lock() {
 }
 
 func (m *Mutex) Unlock() {
+	m.fresh()
 	if !vsched.SyncOp(vsched.OpUnlock, m, "", true, nil) {
 		m.real.Unlock()
 		return
@@ -42,6 +52,7 @@ func (m *Mutex) Unlock() {
 }
 
 func (m *Mutex) TryLock() bool {
+	m.fresh()
 	if !vsched.SyncOp(vsched.OpLock, m, "", true, nil) {
 		return m.real.TryLock()
 	}
@@ -62,9 +73,17 @@ type RWMutex struct {
 	pending int // writers that announced and wait for readers to drain
 	wclock  vsched.HBClock // released by Unlock; acquired by RLock and Lock
 	rclock  vsched.HBClock // released by RUnlock; acquired by Lock
+	ep      uint64
+}
+
+func (m *RWMutex) fresh() {
+	if e := vsched.Epoch(); m.ep != e {
+		m.ep, m.readers, m.writer, m.pending = e, 0, false, 0
+	}
 }
 
 func (m *RWMutex) RLock() {
+	m.fresh()
 	if !vsched.SyncOp(vsched.OpRLock, m, "", false, func() bool { return !m.writer && m.pending == 0 }) {
 		m.real.RLock()
 		return
@@ -74,6 +93,7 @@ func (m *RWMutex) RLock() {
 }
 
 func (m *RWMutex) RUnlock() {
+	m.fresh()
 	if !vsched.SyncOp(vsched.OpRUnlock, m, "", true, nil) {
 		m.real.RUnlock()
 		return
@@ -86,6 +106,7 @@ func (m *RWMutex) RUnlock() {
 }
 
 func (m *RWMutex) Lock() {
+	m.fresh()
 	if !vsched.SyncOp(vsched.OpWLockAnnounce, m, "", true, func() bool { return !m.writer && m.pending == 0 }) {
 		m.real.Lock()
 		return
@@ -99,6 +120,7 @@ func (m *RWMutex) Lock() {
 }
 
 func (m *RWMutex) Unlock() {
+	m.fresh()
 	if !vsched.SyncOp(vsched.OpUnlock, m, "", true, nil) {
 		m.real.Unlock()
 		return
@@ -123,9 +145,17 @@ type WaitGroup struct {
 	real  sync.WaitGroup
 	n     int
 	clock vsched.HBClock
+	ep    uint64
+}
+
+func (w *WaitGroup) fresh() {
+	if e := vsched.Epoch(); w.ep != e {
+		w.ep, w.n = e, 0
+	}
 }
 
 func (w *WaitGroup) Add(d int) {
+	w.fresh()
 	if !vsched.SyncOp(vsched.OpWGAdd, w, "", true, nil) {
 		w.real.Add(d)
 		return
@@ -142,6 +172,7 @@ func (w *WaitGroup) Add(d int) {
 func (w *WaitGroup) Done() { w.Add(-1) }
 
 func (w *WaitGroup) Wait() {
+	w.fresh()
 	if !vsched.SyncOp(vsched.OpWait, w, "", false, func() bool { return w.n <= 0 }) {
 		w.real.Wait()
 		return
@@ -155,9 +186,13 @@ type Once struct {
 	done  bool
 	busy  bool
 	clock vsched.HBClock
+	ep    uint64
 }
 
 func (o *Once) Do(f func()) {
+	if e := vsched.Epoch(); o.ep != e {
+		o.ep, o.busy = e, false // done persists: the effect of f is global
+	}
 	if !vsched.SyncOp(vsched.OpOnce, o, "", true, func() bool { return !o.busy }) {
 		o.real.Do(f)
 		return
